@@ -403,6 +403,20 @@ func DeleteOp(o Object, k Key, strict bool) Val {
 // In is `k in o`.
 func In(o Object, k Key) Val { return Bool(o.HasProperty(k)) }
 
+// IsArray (§7.2.2) of an object: looks through proxies; a revoked proxy is a TypeError.
+func IsArray(o Object) Val {
+	switch x := o.(type) {
+	case *Proxy:
+		if x.Target == nil {
+			throwTypeError("revoked")
+		}
+		return IsArray(x.Target)
+	case *Ordinary:
+		return Bool(x.IsArray)
+	}
+	return False
+}
+
 // TypeOf of an object value.
 func TypeOf(o Object) Val {
 	if o.IsCallable() {
